@@ -86,6 +86,7 @@ macro_rules! body_i {
             "to_bits" => a.to_bits(),
             "from_bits" => <$T>::from_bits(u),
             "as_bits" => *a.as_bits(),
+            "as_bits_mut" => { let mut x = <$T>::ZERO; *x.as_bits_mut() = u; x },
         }
         pub fn run(g: &str, args: &Args, out: &mut String) -> bool {
             match g { "re" => { re(args, out); true } _ => false }
